@@ -462,6 +462,18 @@ func genC13() *rapid.Generator[*Spec] {
 		if specialKind == "iface" || specialKind == "notimpl" {
 			notes = append(notes, "special="+specialKind)
 		}
+		if rapid.IntRange(0, 99).Draw(t, "samespelling") < 50 {
+			// two sets of two packages (both called conf) provide a value of the
+			// same type written with the same spelling; each has its own injector
+			for _, pk := range []int{2, 3} {
+				name := rapid.SampledFrom([]string{"Default", "Port"}).Draw(t, "samename")
+				ty := map[string]string{"Default": "string", "Port": "int"}[name]
+				ii := addItem(s, Item{Kind: "value", Expr: name, Out: Basic(ty)})
+				s.Sets = append(s.Sets, Set{Pkg: pk, Name: "ConfSet", Args: []Ref{RItem(ii)}, AliasOf: -1})
+				s.Injectors = append(s.Injectors, Injector{Name: fmt.Sprintf("InjectConf%d", pk), Out: Basic(ty), Args: []Ref{RSet(len(s.Sets) - 1)}, Panic: true})
+			}
+			notes = append(notes, "same-spelling")
+		}
 		if excludedD20 {
 			notes = append(notes, "d20-excluded")
 		}
